@@ -62,6 +62,9 @@ def universe(tier, seed):
     from ..absgrammar import eof
     glr = grammar(rule('s', seq(call('y'), eof())), rule('y', alt(seq(call('y'), tok('b'), call('Z')), call('Z'))), rule('Z', tok('a')))
     items.append({'g': glr, 'texts': all_texts(['a', 'b'], 5), 'label': 'leftrec', 'nomemo': False})
+    # a rule (and its action) named like a Python builtin: the declared parameters reach the action all the same
+    gp3 = grammar(rule('s', seq(call('hex'), opt(call('hex')))), rule('hex', alt(tok('a'), tok('b')), params=['T', '16']))
+    items.append({'g': gp3, 'texts': texts, 'label': 'params', 'nomemo': False, 'params': {'hex': ['T', '16']}})
     # a rule's type and base classes ARE its declared parameter (name::Type::Base is the parameter 'Type::Base')
     gp2 = grammar(rule('s', seq(call('y'), opt(call('y')))), rule('y', alt(tok('a'), tok('b')), typ=['Foo', 'Bar']))
     items.append({'g': gp2, 'texts': texts, 'label': 'params', 'nomemo': False, 'params': {'y': ['Foo::Bar']}})
